@@ -1,0 +1,135 @@
+//go:build verif
+
+// Hooks for the verification harness under /verif. This file is compiled only with the
+// build tag "verif"; it adds entry points and changes no existing code.
+
+package mqtt
+
+import (
+	"context"
+	"fmt"
+	"io"
+	"sync/atomic"
+)
+
+// VerifParsed is a canonical rendering of what a packet parser returned.
+type VerifParsed struct {
+	Kind     string // "connack", "publish", "id", "suback", "pingresp"
+	Flag     bool   // CONNACK session present
+	Code     byte   // CONNACK return code
+	ID       uint16
+	Codes    []byte
+	Message  *Message
+	Err      error
+	Panicked interface{}
+}
+
+// VerifParse calls the parser for the given packet type on (flag, contents), recovering panics.
+func VerifParse(typ byte, flag byte, contents []byte) (res VerifParsed) {
+	defer func() {
+		if r := recover(); r != nil {
+			res = VerifParsed{Panicked: fmt.Sprint(r)}
+		}
+	}()
+	switch packetType(typ & 0xF0) {
+	case packetConnAck:
+		p, err := (&pktConnAck{}).Parse(flag, contents)
+		if err != nil {
+			return VerifParsed{Err: err}
+		}
+		return VerifParsed{Kind: "connack", Flag: p.SessionPresent, Code: byte(p.Code)}
+	case packetPublish:
+		p, err := (&pktPublish{}).Parse(flag, contents)
+		if err != nil {
+			return VerifParsed{Err: err}
+		}
+		return VerifParsed{Kind: "publish", Message: p.Message}
+	case packetPubAck:
+		p, err := (&pktPubAck{}).Parse(flag, contents)
+		if err != nil {
+			return VerifParsed{Err: err}
+		}
+		return VerifParsed{Kind: "id", ID: p.ID}
+	case packetPubRec:
+		p, err := (&pktPubRec{}).Parse(flag, contents)
+		if err != nil {
+			return VerifParsed{Err: err}
+		}
+		return VerifParsed{Kind: "id", ID: p.ID}
+	case packetPubRel:
+		p, err := (&pktPubRel{}).Parse(flag, contents)
+		if err != nil {
+			return VerifParsed{Err: err}
+		}
+		return VerifParsed{Kind: "id", ID: p.ID}
+	case packetPubComp:
+		p, err := (&pktPubComp{}).Parse(flag, contents)
+		if err != nil {
+			return VerifParsed{Err: err}
+		}
+		return VerifParsed{Kind: "id", ID: p.ID}
+	case packetSubAck:
+		p, err := (&pktSubAck{}).Parse(flag, contents)
+		if err != nil {
+			return VerifParsed{Err: err}
+		}
+		codes := make([]byte, len(p.Codes))
+		for i, c := range p.Codes {
+			codes[i] = byte(c)
+		}
+		return VerifParsed{Kind: "suback", ID: p.ID, Codes: codes}
+	case packetUnsubAck:
+		p, err := (&pktUnsubAck{}).Parse(flag, contents)
+		if err != nil {
+			return VerifParsed{Err: err}
+		}
+		return VerifParsed{Kind: "id", ID: p.ID}
+	case packetPingResp:
+		_, err := (&pktPingResp{}).Parse(flag, contents)
+		if err != nil {
+			return VerifParsed{Err: err}
+		}
+		return VerifParsed{Kind: "pingresp"}
+	}
+	return VerifParsed{Err: ErrInvalidPacket, Kind: "unknown"}
+}
+
+// VerifReadPacket exposes readPacket.
+func VerifReadPacket(r io.Reader) (typ byte, flag byte, contents []byte, err error) {
+	t, f, c, err := readPacket(r)
+	return byte(t), f, c, err
+}
+
+// VerifRemainingLength exposes remainingLength, recovering its panic.
+func VerifRemainingLength(n int) (b []byte, panicked bool) {
+	defer func() {
+		if r := recover(); r != nil {
+			b, panicked = nil, true
+		}
+	}()
+	return remainingLength(n), false
+}
+
+// VerifSetIDLast sets the packet identifier counter (to reach wrap-around quickly).
+func (c *BaseClient) VerifSetIDLast(v uint32) {
+	atomic.StoreUint32(&c.idLast, v)
+}
+
+// VerifIDLast reads the packet identifier counter.
+func (c *BaseClient) VerifIDLast() uint32 {
+	return atomic.LoadUint32(&c.idLast)
+}
+
+// VerifBarrier queues a no-op task which closes ch when the task goroutine reaches it:
+// every task submitted before it has then been executed.
+func (c *RetryClient) VerifBarrier(ch chan struct{}) error {
+	return c.pushTask(context.Background(), func(ctx context.Context, cli *BaseClient) {
+		close(ch)
+	})
+}
+
+// VerifSubEstablished returns a copy of the subscriptions the RetryClient would re-establish.
+// It must only be called while the task goroutine is idle (after a barrier).
+func (c *RetryClient) VerifSubEstablished() []Subscription {
+	return append([]Subscription{}, c.subEstablished...)
+}
